@@ -205,6 +205,13 @@ def rdatetime(r, fmt):
 
 
 def ricc(r):
+    if r.random() < 0.12:
+        # chip data longer than 255 bytes (the configured field_length of the packaged ICC element is not a limit)
+        out = b''
+        while len(out) < r.choice((256, 300, 700, 990)) - 40:
+            n = r.randrange(20, 40)
+            out += b'\x9f\x10' + bytes([n]) + bytes(r.randrange(256) for _ in range(n))
+        return out
     out = b''
     for _ in range(r.randrange(1, 6)):
         tag = r.choice((b'\x9f\x26', b'\x9f\x27', b'\x82', b'\x95', b'\x5f\x2a', b'\x9a', b'\x9f\x36', b'\x84',
@@ -246,7 +253,7 @@ def value_for(r, f, alpha):
         scale = r.choice((0, 1, 2, 3))
         w = flen if ftype == 'FIXED' else 12
         digs = max(1, min(w - (1 if scale else 0) - 1, 9 if w < 30 else 37))
-        n = r.randrange(10 ** digs)          # exact construction (scaleb would round to the context precision of 28 digits)
+        n = r.choice((0, 0, r.randrange(10 ** digs), r.randrange(10 ** digs), 10 ** digs - 1))     # exact construction (scaleb would round to the context precision of 28 digits)
         return decimal.Decimal((0, tuple(int(c) for c in str(n)), -scale))
     if proc == 'DE43':
         return rde43(r, cap)
@@ -254,6 +261,10 @@ def value_for(r, f, alpha):
         n = r.randrange(10, 20) if ftype != 'FIXED' else flen
         return ''.join(chr(48 + (i * 7 + 3) % 10) for i in range(n)) if r.random() < 0.5 else rtext(r, n, alpha, 'digits')
     n = flen if ftype == 'FIXED' else var_len(r, cap)
+    if r.random() < 0.06:
+        return ' ' * n                      # a value that is all blanks is a value
+    if r.random() < 0.04:
+        return '0' * n
     return rtext(r, n, alpha)
 
 
